@@ -541,7 +541,7 @@ func TestVerifC08(t *testing.T) {
 	TestUseLowSecurityKDFParameters(t)
 	restic.TestDisableCheckPolynomial(t)
 	ctx := context.Background()
-	nHist := env.Pick(400, 2400)
+	nHist := env.Pick(400, 1600)
 	stepKinds := map[string]int64{}
 
 	for ci := 0; ci < nHist; ci++ {
@@ -652,7 +652,7 @@ func TestVerifC08(t *testing.T) {
 			case "delete":
 				h.removeFile(h.order[rng.Intn(len(h.order))], "delete")
 			case "reload":
-				evals += h.reload(env.Thorough() && ci%2 == 0)
+				evals += h.reload(env.Thorough() && ci%4 == 0)
 				reloads++
 			}
 		}
